@@ -63,6 +63,11 @@ def spaces(tier):
     for ns, nr in small:
         if abs_ok:
             out.append(inst(ns, nr, True))
+    from mc.lib import api
+    import spowtd.classify as classify_mod
+    if api.available(classify_mod, 'disambiguate_matching',
+                     ('rain_intervals', 'jump_intervals')):
+        out.append(matching.large_space())
     if tier == 'quick':
         if abs_ok:
             out.append(inst(3, 3, False))
@@ -85,6 +90,9 @@ def spaces(tier):
 
 
 def run_case(case):
+    if case['kind'] == 'large':
+        viol, info = matching.run_large(case)
+        return cs.to_result(viol, info)
     if case['kind'] == 'abs':
         viol, info = matching.run_abs(case)
         return cs.to_result(viol, info)
